@@ -214,7 +214,7 @@ func isSprintf(info *types.Info, pc **ast.CallExpr) bool {
 // ---------- one view of "text built from a constant frame and holes" ----------
 
 var (
-	sprintfFunc  *types.Func                   // fmt.Sprintf, found in the import graph at load time
+	sprintfFunc  *types.Func                    // fmt.Sprintf, found in the import graph at load time
 	concatViews  = map[ast.Node]*ast.CallExpr{} // outermost concatenation -> its Sprintf-shaped view
 	concatInners = map[ast.Node]bool{}          // concatenations already covered by an outer one
 )
